@@ -353,3 +353,556 @@ Proof.
            intros ->. unfold ext_eqb in Eq. rewrite !Z.eqb_refl in Eq. discriminate.
     + cbn [andb] in Hlem. inversion Hlem; subst. lia.
 Qed.
+
+(** ** Part C: the estimate is within a few units of the true scaled product *)
+
+Lemma qcheck_weak q : -342 <= q <= 308 ->
+  (T128 q - 1) * qY q < qX q < (T128 q + 1) * qY q.
+Proof.
+  intros H. pose proof (qY_pos q) as HY.
+  destruct (Z_lt_le_dec q (-27)).
+  { pose proof (qcheck_floor q H ltac:(lia)). lia. }
+  destruct (Z_lt_le_dec q 0).
+  { pose proof (qcheck_ceil q ltac:(lia)) as [? _]. lia. }
+  destruct (Z_le_gt_dec q 55).
+  { pose proof (qcheck_exact q ltac:(lia)). lia. }
+  pose proof (qcheck_floor q H ltac:(lia)). lia.
+Qed.
+
+Definition est_s (f : format) (e : Z) : Z :=
+  if e <=? - (63 - MANTISSA_SIZE f) then 1 - e else 63 - MANTISSA_SIZE f.
+Definition est_E (f : format) (e : Z) : Z :=
+  if e <=? - (63 - MANTISSA_SIZE f) then femin f else e + (63 - MANTISSA_SIZE f) - 1 + femin f.
+
+(** [rd_bits] in closed form, for every exponent (no lower bound needed) *)
+Lemma rd_bits_cell f m e : lfmt f -> 2 ^ 63 <= m < 2 ^ 64 ->
+  rd_bits f (mkExt m e) = cellP f (m / 2 ^ est_s f e) (est_E f e).
+Proof.
+  intros L Hm. pose proof (lfmt_emax f L) as (He1 & He2 & He3 & He4 & He5).
+  pose proof (lf_ms f L) as HMS. pose proof (inf_bits_eq f L) as Einf.
+  unfold rd_bits, rd_fields, round_spec, pack_fields, est_s, est_E, cellP. cbv zeta. cbn [mant exp].
+  set (H2 := 2 ^ MANTISSA_SIZE f). assert (HH : 0 < H2) by (apply pow2_pos; lia).
+  assert (E21 : 2 ^ (MANTISSA_SIZE f + 1) = 2 * H2) by (apply pow2_S; lia).
+  unfold prec.
+  destruct (e <=? - (63 - MANTISSA_SIZE f)) eqn:Es.
+  - set (q := m / 2 ^ (1 - e)).
+    pose proof (pow2_pos (1 - e) ltac:(lia)) as Hp.
+    assert (Hq : 0 <= q < H2).
+    { unfold q. split; [apply Z.div_pos; lia|].
+      apply Z.div_lt_upper_bound; [lia|].
+      assert (2 ^ 64 <= 2 ^ (1 - e) * H2).
+      { unfold H2. rewrite <- pow2_add by lia. apply pow2_le. lia. }
+      lia. }
+    replace (H2 <=? q) with false by lia. cbn [mant exp].
+    rewrite Z.mul_0_l, Z.lor_0_r.
+    replace (emax f - (MANTISSA_SIZE f + 1) <? femin f) with false by lia.
+    unfold encode. fold H2. replace (q <? H2) with true by lia. reflexivity.
+  - set (sh := 63 - MANTISSA_SIZE f) in *.
+    set (q := m / 2 ^ sh).
+    pose proof (pow2_pos sh ltac:(unfold sh; lia)) as Hp.
+    assert (E63 : 2 ^ 63 = 2 ^ sh * H2).
+    { unfold H2. rewrite <- pow2_add by (unfold sh; lia). f_equal. unfold sh. lia. }
+    assert (Hq : H2 <= q < 2 * H2).
+    { unfold q. split.
+      - apply Z.div_le_lower_bound; lia.
+      - apply Z.div_lt_upper_bound; [lia|]. rewrite p2_64, p2_63 in *. lia. }
+    rewrite E21. replace (q =? 2 * H2) with false by lia.
+    replace (emax f - (MANTISSA_SIZE f + 1) <? e + sh - 1 + femin f)
+      with (INFINITE_POWER f <=? e + sh) by lia.
+    destruct (INFINITE_POWER f <=? e + sh) eqn:Ei; cbn [mant exp].
+    + rewrite Z.lor_0_l, Einf. fold H2. lia.
+    + pose proof (lor_add (q - H2) (e + sh) (MANTISSA_SIZE f) ltac:(lia) ltac:(fold H2; lia)) as LA.
+      fold H2 in LA. rewrite LA. unfold encode. fold H2.
+      replace (q <? H2) with false by lia. lia.
+Qed.
+
+(** monotone transfer of cell inequalities between two fractions *)
+Lemma sc_mono_lower n1 d1 n2 d2 E a b : 0 < d1 -> 0 < d2 -> 0 <= b ->
+  n1 * d2 <= n2 * d1 -> a * sc_den d1 E < b * sc_num n1 E -> a * sc_den d2 E < b * sc_num n2 E.
+Proof.
+  intros H1 H2 Hb Hle H. rewrite sc_num_eq, sc_den_eq in *.
+  pose proof (p2n_pos E). pose proof (p2d_pos E).
+  apply (Z.mul_lt_mono_pos_r d1); [exact H1|].
+  assert (a * (d2 * p2n E) * d1 = d2 * (a * (d1 * p2n E))) by ring.
+  assert (b * (n1 * p2d E) * d2 <= b * (n2 * p2d E) * d1).
+  { replace (b * (n1 * p2d E) * d2) with (b * p2d E * (n1 * d2)) by ring.
+    replace (b * (n2 * p2d E) * d1) with (b * p2d E * (n2 * d1)) by ring.
+    apply Z.mul_le_mono_nonneg_l; [nia|exact Hle]. }
+  nia.
+Qed.
+Lemma sc_mono_upper n1 d1 n2 d2 E a b : 0 < d1 -> 0 < d2 -> 0 <= b ->
+  n2 * d1 <= n1 * d2 -> b * sc_num n1 E < a * sc_den d1 E -> b * sc_num n2 E < a * sc_den d2 E.
+Proof.
+  intros H1 H2 Hb Hle H. rewrite sc_num_eq, sc_den_eq in *.
+  pose proof (p2n_pos E). pose proof (p2d_pos E).
+  apply (Z.mul_lt_mono_pos_r d1); [exact H1|].
+  assert (a * (d2 * p2n E) * d1 = d2 * (a * (d1 * p2n E))) by ring.
+  assert (b * (n2 * p2d E) * d1 <= b * (n1 * p2d E) * d2).
+  { replace (b * (n1 * p2d E) * d2) with (b * p2d E * (n1 * d2)) by ring.
+    replace (b * (n2 * p2d E) * d1) with (b * p2d E * (n2 * d1)) by ring.
+    apply Z.mul_le_mono_nonneg_l; [nia|exact Hle]. }
+  nia.
+Qed.
+
+(** the arithmetic core: from the bracket of the product to the cell inequalities.
+    [C] = 2^128, [B] = 2^64, [S] = 2^s the cell width in units of the estimate, [t] = 2^hilz *)
+Lemma est_ineq t hi m S qq Y A B C : 1 <= t <= 2 -> m = hi * t -> 0 <= m -> 32 <= S -> 0 < Y ->
+  0 < B -> C = B * B -> 8 <= B ->
+  qq * S <= m < (qq + 1) * S ->
+  (hi * C - B) * Y < A < ((hi + 2) * C + B) * Y ->
+  (4 * qq - 1) * (S * C) * Y < 4 * (A * t) /\
+  4 * (A * t) < (4 * (m + 4) + 1) * C * Y /\
+  (4 * (m + 4) + 1) * C * Y <= (4 * qq + 6) * (S * C) * Y.
+Proof.
+  intros Ht Hm Hm0 HS HY HB HC HB8 Hqq [HA1 HA2].
+  set (CY := C * Y). set (BY := B * Y).
+  assert (HBY : 0 < BY) by (unfold BY; apply Z.mul_pos_pos; lia).
+  assert (ECY : CY = B * BY) by (unfold CY, BY; rewrite HC; ring).
+  assert (HCY : 8 * BY <= CY) by (rewrite ECY; apply Z.mul_le_mono_nonneg_r; lia).
+  assert (L1 : t * ((hi * C - B) * Y) < t * A) by (apply Z.mul_lt_mono_pos_l; lia).
+  assert (L2 : t * A < t * (((hi + 2) * C + B) * Y)) by (apply Z.mul_lt_mono_pos_l; lia).
+  assert (E1 : t * ((hi * C - B) * Y) = m * CY - t * BY) by (unfold CY, BY; rewrite Hm; ring).
+  assert (E2 : t * (((hi + 2) * C + B) * Y) = m * CY + 2 * t * CY + t * BY) by (unfold CY, BY; rewrite Hm; ring).
+  assert (M1 : qq * S * CY <= m * CY) by (apply Z.mul_le_mono_nonneg_r; lia).
+  assert (M2 : (m + 1) * CY <= (qq + 1) * S * CY) by (apply Z.mul_le_mono_nonneg_r; lia).
+  assert (M3 : 32 * CY <= S * CY) by (apply Z.mul_le_mono_nonneg_r; lia).
+  assert (T1 : t * BY <= 2 * BY) by (apply Z.mul_le_mono_nonneg_r; lia).
+  assert (T2 : t * CY <= 2 * CY) by (apply Z.mul_le_mono_nonneg_r; lia).
+  replace ((4 * qq - 1) * (S * C) * Y) with (4 * (qq * S * CY) - S * CY) by (unfold CY; ring).
+  replace ((4 * (m + 4) + 1) * C * Y) with (4 * (m * CY) + 17 * CY) by (unfold CY; ring).
+  replace ((4 * qq + 6) * (S * C) * Y) with (4 * ((qq + 1) * S * CY) + 2 * (S * CY)) by (unfold CY; ring).
+  replace (4 * (A * t)) with (4 * (t * A)) by ring.
+  replace ((m + 1) * CY) with (m * CY + CY) in M2 by ring.
+  lia.
+Qed.
+
+Lemma many_ineq w m S qq : 0 < w -> 0 <= m < 2 ^ 64 -> 2 ^ 66 <= w * S -> 32 * w <= w * S ->
+  m < (qq + 1) * S ->
+  (w + 1) * (4 * (m + 4) + 1) <= w * ((4 * qq + 6) * S).
+Proof.
+  intros Hw Hm HwS HwS2 Hq.
+  assert (P1 : w * (m + 1) <= w * ((qq + 1) * S)) by (apply Z.mul_le_mono_nonneg_l; lia).
+  replace (w * ((4 * qq + 6) * S)) with (4 * (w * ((qq + 1) * S)) + 2 * (w * S)) by ring.
+  replace ((w + 1) * (4 * (m + 4) + 1)) with (4 * (w * m) + 17 * w + 4 * m + 17) by ring.
+  replace (w * (m + 1)) with (w * m + w) in P1 by ring.
+  rewrite p2_64 in Hm. change (2 ^ 66) with 73786976294838206464 in HwS. lia.
+Qed.
+
+
+(** ** the scaled value against the estimate, at any grid [2^E] whose cells are [2^s] units wide *)
+Lemma est_core f q w lo hi s E : lfmt f -> 0 < w < 2 ^ 64 -> -342 <= q <= 308 ->
+  0 <= lo < 2 ^ 64 -> 2 ^ 62 <= hi < 2 ^ 64 ->
+  refined_pair (w * 2 ^ lz64 w) q lo hi \/
+  unrefined_pair (w * 2 ^ lz64 w) q (61 - MANTISSA_SIZE f) lo hi ->
+  E + qs q + lz64 w = 128 + s - hilz_of hi -> 5 <= s ->
+  let m := hi * 2 ^ hilz_of hi in
+  let Dw := sc_den (dec_den q) E in
+  (forall qq, qq * 2 ^ s <= m -> (4 * qq - 1) * Dw < 4 * sc_num (dec_num w q) E) /\
+  4 * sc_num (dec_num w q) E * 2 ^ s < (4 * (m + 4) + 1) * Dw /\
+  4 * sc_num (dec_num (w + 1) q) E * 2 ^ s * w < (w + 1) * (4 * (m + 4) + 1) * Dw.
+Proof.
+  intros L Hw Hq Hlo Hhi Hpair HEs Hs5.
+  pose proof (lf_ms f L) as HMS.
+  pose proof (lz64_spec w ltac:(lia)) as (Hlz & Hw').
+  set (lz := lz64 w) in *. set (w' := w * 2 ^ lz) in *.
+  set (hilz := hilz_of hi) in *. set (t := 2 ^ hilz).
+  cbv zeta. fold t. set (m := hi * t).
+  assert (Hh : 0 <= hilz <= 1 /\ 1 <= t <= 2 /\ 2 ^ 63 <= m < 2 ^ 64).
+  { unfold m, t, hilz. destruct (hilz_cases hi Hhi) as [[H1 H]|[H1 H]]; rewrite H.
+    - change (2 ^ 1) with 2. rewrite p2_63, p2_64 in *. change (2 ^ 62) with 4611686018427387904 in Hhi. lia.
+    - change (2 ^ 0) with 1. lia. }
+  destruct Hh as (Hh & Ht & Hm).
+  pose proof (pow2_pos s ltac:(lia)) as HS.
+  set (S := 2 ^ s) in *.
+  assert (HS32 : 32 <= S).
+  { unfold S. change 32 with (2 ^ 5). apply pow2_le. lia. }
+  assert (Hdd : 0 < dec_den q) by (rewrite dec_den_eq; apply tenD_pos).
+  pose proof (pair_facts f q w' lo hi L ltac:(lia) Hw' Hlo ltac:(lia) Hpair) as [_ PP]. cbv zeta in PP.
+  pose proof (qcheck_weak q ltac:(lia)) as HX.
+  pose proof (qY_pos q) as HY. pose proof (tentry_range q ltac:(lia)) as (HT1 & HT2 & HT).
+  set (P := w' * T128 q) in *. set (Y := qY q) in *. set (X := qX q) in *.
+  set (B := 2 ^ 64) in *. set (C := 2 ^ 128).
+  assert (HB : 8 <= B) by (unfold B; rewrite p2_64; lia).
+  assert (HC : C = B * B) by (unfold C, B; exact p2_128).
+  assert (HP : hi * C <= P < (hi + 2) * C).
+  { rewrite HC. destruct PP as [PR|[PU _]].
+    - clear - PR Hlo HB. nia.
+    - assert (0 <= w' * Tlo q) by (apply Z.mul_nonneg_nonneg; lia).
+      assert (w' * Tlo q < B * B) by (apply Z.mul_lt_mono_nonneg; lia).
+      clear - PU Hlo H H0 HB. nia. }
+  set (A := w' * X).
+  assert (HA : (hi * C - B) * Y < A < ((hi + 2) * C + B) * Y).
+  { assert (HA1 : (P - w') * Y < A).
+    { replace ((P - w') * Y) with (w' * ((T128 q - 1) * Y)) by (unfold P; ring).
+      unfold A. apply Z.mul_lt_mono_pos_l; lia. }
+    assert (HA2 : A < (P + w') * Y).
+    { replace ((P + w') * Y) with (w' * ((T128 q + 1) * Y)) by (unfold P; ring).
+      unfold A. apply Z.mul_lt_mono_pos_l; lia. }
+    assert ((hi * C - B) * Y <= (P - w') * Y) by (apply Z.mul_le_mono_nonneg_r; lia).
+    assert ((P + w') * Y <= ((hi + 2) * C + B) * Y) by (apply Z.mul_le_mono_nonneg_r; lia).
+    lia. }
+  set (K := 2 ^ (128 + s - hilz)).
+  assert (HK : 0 < K) by (unfold K; apply pow2_pos; lia).
+  assert (EKt : K * t = S * C).
+  { unfold K, t, S, C. rewrite <- !pow2_add by lia. f_equal. lia. }
+  assert (EK : 2 ^ lz * 2 ^ (E + qs q) = K).
+  { unfold K. rewrite <- pow2_add by lia. f_equal. lia. }
+  assert (SC : forall ww, sc_num (dec_num ww q) E * (K * Y) = (ww * 2 ^ lz * X) * sc_den (dec_den q) E).
+  { intros ww. rewrite <- EK. apply scaling; lia. }
+  pose proof (sc_den_pos (dec_den q) E Hdd) as HDw.
+  set (Dw := sc_den (dec_den q) E) in *.
+  assert (HC0 : 0 < C) by (rewrite HC; apply Z.mul_pos_pos; lia).
+  assert (HSCY : 0 < S * C * Y) by (apply Z.mul_pos_pos; [apply Z.mul_pos_pos|]; lia).
+  (* N * (S*C*Y) = (A_ww * t) * Dw *)
+  assert (SC2 : forall ww, sc_num (dec_num ww q) E * (S * C * Y) = (ww * 2 ^ lz * X * t) * Dw).
+  { intros ww. rewrite <- EKt. transitivity (sc_num (dec_num ww q) E * (K * Y) * t); [ring|].
+    rewrite SC. ring. }
+  (* the upper bound on A * t only needs m <= m *)
+  assert (I2 : 4 * (A * t) < (4 * (m + 4) + 1) * C * Y).
+  { pose proof (Z.div_mod m S ltac:(lia)) as Edm. pose proof (Z.mod_pos_bound m S ltac:(lia)) as Bdm.
+    destruct (est_ineq t hi m S (m / S) Y A B C Ht eq_refl ltac:(lia) HS32 HY ltac:(lia) HC HB ltac:(lia) HA)
+      as (_ & I2 & _). exact I2. }
+  split; [|split].
+  - intros qq Hqq.
+    (* lower bound: only qq * S <= m is used *)
+    assert (I1 : (4 * qq - 1) * (S * C) * Y < 4 * (A * t)).
+    { pose proof (Z.div_mod m S ltac:(lia)) as Edm. pose proof (Z.mod_pos_bound m S ltac:(lia)) as Bdm.
+      destruct (est_ineq t hi m S (m / S) Y A B C Ht eq_refl ltac:(lia) HS32 HY ltac:(lia) HC HB ltac:(lia) HA)
+        as (I1 & _ & _).
+      assert (qq <= m / S) by (apply Z.div_le_lower_bound; lia).
+      assert ((4 * qq - 1) * (S * C * Y) <= (4 * (m / S) - 1) * (S * C * Y)) by (apply Z.mul_le_mono_nonneg_r; lia).
+      replace ((4 * qq - 1) * (S * C) * Y) with ((4 * qq - 1) * (S * C * Y)) by ring.
+      replace ((4 * (m / S) - 1) * (S * C) * Y) with ((4 * (m / S) - 1) * (S * C * Y)) in I1 by ring. lia. }
+    apply (Z.mul_lt_mono_pos_r (S * C * Y)); [exact HSCY|].
+    replace (4 * sc_num (dec_num w q) E * (S * C * Y)) with (4 * (sc_num (dec_num w q) E * (S * C * Y))) by ring.
+    rewrite SC2. fold w'. fold A.
+    replace ((4 * qq - 1) * Dw * (S * C * Y)) with ((4 * qq - 1) * (S * C) * Y * Dw) by ring.
+    replace (4 * (A * t * Dw)) with (4 * (A * t) * Dw) by ring.
+    apply Z.mul_lt_mono_pos_r; lia.
+  - apply (Z.mul_lt_mono_pos_r (C * Y)); [apply Z.mul_pos_pos; lia|].
+    replace (4 * sc_num (dec_num w q) E * S * (C * Y)) with (4 * (sc_num (dec_num w q) E * (S * C * Y))) by ring.
+    rewrite SC2. fold w'. fold A.
+    replace (4 * (A * t * Dw)) with (4 * (A * t) * Dw) by ring.
+    replace ((4 * (m + 4) + 1) * Dw * (C * Y)) with ((4 * (m + 4) + 1) * C * Y * Dw) by ring.
+    apply Z.mul_lt_mono_pos_r; lia.
+  - apply (Z.mul_lt_mono_pos_r (C * Y)); [apply Z.mul_pos_pos; lia|].
+    replace (4 * sc_num (dec_num (w + 1) q) E * S * w * (C * Y))
+      with (4 * (sc_num (dec_num (w + 1) q) E * (S * C * Y)) * w) by ring.
+    rewrite SC2.
+    replace (4 * ((w + 1) * 2 ^ lz * X * t * Dw) * w) with ((w + 1) * (4 * (A * t) * Dw)) by (unfold A, w'; ring).
+    replace ((w + 1) * (4 * (m + 4) + 1) * Dw * (C * Y)) with ((w + 1) * ((4 * (m + 4) + 1) * C * Y * Dw)) by ring.
+    apply Z.mul_lt_mono_pos_l; [lia|]. apply Z.mul_lt_mono_pos_r; lia.
+Qed.
+
+(** ** Main theorem: the correctly rounded value of anything the parsed number can denote is the
+    truncated estimate or its successor *)
+Theorem lemire_declined_estimate f b n fp : lfmt_ok f = true -> rfmt_ok f = true ->
+  0 <= nmant n < 2 ^ 64 ->
+  (many n = true -> 2 ^ (MANTISSA_SIZE f + 3) <= nmant n /\ nmant n + 1 < 2 ^ 64) ->
+  lemire TABLES f b n = Ok fp -> exp fp < 0 ->
+  let fp' := mkExt (mant fp) (exp fp - INVALID_FP f) in
+  let w := nmant n in let q := nexp n in
+  2 ^ 63 <= mant fp' < 2 ^ 64 /\
+  (exists hilz, 0 <= hilz <= 1 /\ exp fp' = pw q + EXPONENT_BIAS f - hilz - lz64 w - 62) /\
+  exp fp' <= 2 ^ 15 /\
+  forall n' d' bits, 0 < d' ->
+    dec_num w q * d' <= n' * dec_den q ->
+    n' * dec_den q <= dec_num (if many n then w + 1 else w) q * d' ->
+    rne_bits f n' d' bits ->
+    rd_bits f fp' <= bits <= rd_bits f fp' + 1.
+Proof.
+  intros Lok Hr Hw Hmany Hlem Hneg. pose proof (lfmt_ok_spec f Lok) as L.
+  pose proof (lfmt_emax f L) as (He1 & He2 & He3 & He4 & He5).
+  pose proof (lf_ms f L) as HMS. pose proof (lf_sp10 f L) as Hsp. pose proof (lf_lp10 f L) as Hlp.
+  pose proof (rp_bias f (rfmt_ok_props f Hr)) as Hbias.
+  assert (Hmany' : many n = true -> 0 < nmant n /\ nmant n + 1 < 2 ^ 64).
+  { intros Hm. destruct (Hmany Hm). pose proof (pow2_pos (MANTISSA_SIZE f + 3) ltac:(lia)). lia. }
+  destruct (lemire_declined_shape f b n fp Lok Hw Hmany' Hlem Hneg) as (Hw0 & Hq & (lo & hi & Hlo & Hhi & Hpair & Hces) & _).
+  cbv zeta. set (w := nmant n) in *. set (q := nexp n) in *.
+  pose proof (lz64_spec w ltac:(lia)) as (Hlz & Hw').
+  set (lz := lz64 w) in *.
+  rewrite (ces_eq f b q hi lz L ltac:(lia) Hhi Hlz) in Hces. inversion Hces as [Hfp]. clear Hces. subst fp.
+  cbn [mant exp].
+  set (hilz := hilz_of hi) in *. set (t := 2 ^ hilz).
+  set (m := hi * t).
+  set (e' := pw q + EXPONENT_BIAS f - hilz - lz - 62).
+  replace (e' + INVALID_FP f - INVALID_FP f) with e' by lia.
+  assert (Hh : 0 <= hilz <= 1 /\ 1 <= t <= 2 /\ 2 ^ 63 <= m < 2 ^ 64).
+  { unfold m, t, hilz. destruct (hilz_cases hi Hhi) as [[H1 H]|[H1 H]]; rewrite H.
+    - change (2 ^ 1) with 2. rewrite p2_63, p2_64 in *. change (2 ^ 62) with 4611686018427387904 in Hhi. lia.
+    - change (2 ^ 0) with 1. lia. }
+  destruct Hh as (Hh & Ht & Hm).
+  pose proof (pw_bounds q ltac:(lia)) as Hpw.
+  split; [exact Hm|]. split; [exists hilz; split; [exact Hh|unfold e'; lia]|].
+  split; [change (2 ^ 15) with 32768; unfold e'; lia|].
+  intros n' d' bits Hd' Hlow Hupp HR.
+  rewrite (rd_bits_cell f m e' L Hm).
+  set (s := est_s f e'). set (E := est_E f e').
+  set (sh := 63 - MANTISSA_SIZE f) in *.
+  assert (Hs : sh <= s /\ 5 <= s) by (unfold s, est_s; fold sh; destruct (e' <=? - sh) eqn:Es; unfold sh in *; lia).
+  destruct Hs as [Hs Hs5].
+  assert (HEs : E + qs q + lz = 128 + s - hilz).
+  { unfold E, s, est_E, est_s, qs. fold sh. destruct (e' <=? - sh) eqn:Es; unfold e', sh, femin, prec in *; lia. }
+  assert (HEf : femin f <= E).
+  { unfold E, est_E. fold sh. destruct (e' <=? - sh) eqn:Es; lia. }
+  pose proof (pow2_pos s ltac:(lia)) as HS.
+  destruct (est_core f q w lo hi s E L ltac:(lia) ltac:(lia) Hlo Hhi Hpair HEs Hs5) as (C1 & C2 & C3).
+  fold hilz t m in C1, C2, C3.
+  set (S := 2 ^ s) in *.
+  assert (HS32 : 32 <= S).
+  { unfold S. change 32 with (2 ^ 5). apply pow2_le. lia. }
+  assert (HSm : 2 ^ 64 <= S * 2 ^ (MANTISSA_SIZE f + 1)).
+  { unfold S. rewrite <- pow2_add by lia. apply pow2_le. unfold sh in *. lia. }
+  set (qq := m / S).
+  pose proof (Z.div_mod m S ltac:(lia)) as Edm. pose proof (Z.mod_pos_bound m S ltac:(lia)) as Bdm.
+  fold qq in Edm.
+  assert (Hqq : qq * S <= m < (qq + 1) * S) by lia.
+  assert (Hqq0 : 0 <= qq) by (unfold qq; apply Z.div_pos; lia).
+  assert (Hqq1 : qq < 2 ^ (MANTISSA_SIZE f + 1)).
+  { unfold qq. apply Z.div_lt_upper_bound; lia. }
+  assert (Hqq2 : femin f < E -> 2 ^ MANTISSA_SIZE f <= qq).
+  { intros HE. unfold E, est_E in HE. fold sh in HE.
+    assert (Es : s = sh) by (unfold s, est_s; fold sh; destruct (e' <=? - sh) eqn:Es; lia).
+    unfold qq. apply Z.div_le_lower_bound; [lia|].
+    unfold S. rewrite Es. rewrite Z.mul_comm, <- pow2_add by (unfold sh; lia).
+    replace (MANTISSA_SIZE f + sh) with 63 by (unfold sh; lia). lia. }
+  assert (Hdn : 0 < dec_num w q) by (rewrite dec_num_eq; pose proof (tenN_pos q); apply Z.mul_pos_pos; lia).
+  assert (Hdd : 0 < dec_den q) by (rewrite dec_den_eq; apply tenD_pos).
+  assert (Hn' : 0 < n').
+  { assert (0 < dec_num w q * d') by (apply Z.mul_pos_pos; lia). clear - H Hlow Hdd. nia. }
+  pose proof (sc_den_pos (dec_den q) E Hdd) as HDw.
+  set (Dw := sc_den (dec_den q) E) in *.
+  assert (LowW : (4 * qq - 1) * Dw < 4 * sc_num (dec_num w q) E) by (apply C1; lia).
+  assert (Hcell : 4 * (m + 4) + 1 <= (4 * qq + 6) * S) by lia.
+  assert (UppW : 4 * sc_num (dec_num (if many n then w + 1 else w) q) E < (4 * qq + 6) * Dw).
+  { destruct (many n) eqn:Emany.
+    - destruct (Hmany eq_refl) as [Hwbig _]. fold w in Hwbig.
+      assert (HwS : 2 ^ 66 <= w * S).
+      { assert (2 ^ 66 = 2 ^ (MANTISSA_SIZE f + 3) * 2 ^ sh).
+        { rewrite <- pow2_add by (unfold sh; lia). f_equal. unfold sh. lia. }
+        assert (2 ^ sh <= S) by (unfold S; apply pow2_le; unfold sh in *; lia).
+        pose proof (pow2_pos sh ltac:(unfold sh; lia)).
+        pose proof (pow2_pos (MANTISSA_SIZE f + 3) ltac:(lia)).
+        rewrite H. apply Z.mul_le_mono_nonneg; lia. }
+      assert (HwS2 : 32 * w <= w * S) by (rewrite (Z.mul_comm 32 w); apply Z.mul_le_mono_nonneg_l; lia).
+      pose proof (many_ineq w m S qq ltac:(lia) ltac:(lia) HwS HwS2 ltac:(lia)) as MI.
+      apply (Z.mul_lt_mono_pos_r (S * w)); [apply Z.mul_pos_pos; lia|].
+      replace (4 * sc_num (dec_num (w + 1) q) E * (S * w)) with (4 * sc_num (dec_num (w + 1) q) E * S * w) by ring.
+      assert ((w + 1) * (4 * (m + 4) + 1) * Dw <= w * ((4 * qq + 6) * S) * Dw) by (apply Z.mul_le_mono_nonneg_r; lia).
+      replace ((4 * qq + 6) * Dw * (S * w)) with (w * ((4 * qq + 6) * S) * Dw) by ring. lia.
+    - apply (Z.mul_lt_mono_pos_r S); [lia|].
+      assert ((4 * (m + 4) + 1) * Dw <= (4 * qq + 6) * S * Dw) by (apply Z.mul_le_mono_nonneg_r; lia).
+      replace ((4 * qq + 6) * Dw * S) with ((4 * qq + 6) * S * Dw) by ring. lia. }
+  apply (cell f n' d' E qq bits L Hn' Hd' HEf ltac:(lia) Hqq2); [|exact HR].
+  split.
+  - apply (sc_mono_lower (dec_num w q) (dec_den q) n' d' E (4 * qq - 1) 4 Hdd Hd' ltac:(lia) Hlow LowW).
+  - apply (sc_mono_upper (dec_num (if many n then w + 1 else w) q) (dec_den q) n' d' E (4 * qq + 6) 4 Hdd Hd' ltac:(lia) Hupp UppW).
+Qed.
+
+(** ** [lemire] declines only inside the table range and for a non-zero significand *)
+Corollary lemire_declines_only_in_range f b n fp : lfmt_ok f = true -> 0 <= nmant n < 2 ^ 64 ->
+  (many n = true -> 0 < nmant n /\ nmant n + 1 < 2 ^ 64) ->
+  lemire TABLES f b n = Ok fp -> exp fp < 0 ->
+  SMALLEST_POWER_OF_TEN f <= nexp n <= LARGEST_POWER_OF_TEN f /\ 0 < nmant n.
+Proof.
+  intros Lok Hw Hmany Hlem Hneg.
+  destruct (lemire_declined_shape f b n fp Lok Hw Hmany Hlem Hneg) as (H1 & H2 & _). auto.
+Qed.
+
+(** ** The exponent of the estimate: below -64 only after an all-ones fallback of
+    [compute_float] itself (at w or at w + 1) *)
+Lemma rne_zero_cell f n d bits : lfmt f -> 0 < n -> 0 < d ->
+  2 * sc_num n (femin f) < sc_den d (femin f) -> rne_bits f n d bits -> bits = 0.
+Proof.
+  intros L Hn Hd H HR. pose proof (lfmt_emax f L) as (He1 & He2 & He3 & He4 & He5).
+  pose proof (lf_ms f L) as HMS.
+  pose proof (sc_den_pos d (femin f) Hd) as HDn. pose proof (sc_num_pos n (femin f) Hn) as HN.
+  assert (Hp : 0 < 2 ^ prec f) by (apply pow2_pos; unfold prec; lia).
+  assert (HC : canon_exp f n d (femin f)).
+  { unfold canon_exp. split; [lia|]. split; [nia|left; reflexivity]. }
+  destruct (rne_cases f n d (femin f) bits ltac:(unfold prec; lia) Hn Hd HC HR) as [[Hge _]|(Hlt & M & HM & ->)].
+  - exfalso. assert (n < 2 ^ emax f * d); [|lia].
+    apply (sc_lt n d (femin f) 0 (emax f)); try lia; change (2 ^ 0) with 1; lia.
+  - pose proof (nearest_bounds n d M (femin f) HM) as NB.
+    assert (M = 0) by nia. subst M. unfold encode.
+    pose proof (pow2_pos (MANTISSA_SIZE f) ltac:(lia)).
+    replace (0 <? 2 ^ MANTISSA_SIZE f) with true by lia. reflexivity.
+Qed.
+
+Lemma pack_zero_inv f fp : lfmt f -> fields_ok f fp -> pack f fp = 0 -> fp = mkExt 0 0.
+Proof.
+  intros L [He Hm] H. destruct fp as [m e]. cbn [mant exp] in *. unfold pack in H. cbn [mant exp] in H.
+  apply Z.lor_eq_0_iff in H. destruct H as [H1 H2].
+  pose proof (pow2_pos (MANTISSA_SIZE f) ltac:(pose proof (lf_ms f L); lia)).
+  f_equal; nia.
+Qed.
+
+Theorem lemire_declined_exp_ge f b n fp : lfmt_ok f = true -> rfmt_ok f = true ->
+  0 <= nmant n < 2 ^ 64 ->
+  (many n = true -> 2 ^ (MANTISSA_SIZE f + 3) <= nmant n /\ nmant n + 1 < 2 ^ 64) ->
+  lemire TABLES f b n = Ok fp -> exp fp < 0 ->
+  ~ declined_at f b (nexp n) (nmant n) -> ~ declined_at f b (nexp n) (nmant n + 1) ->
+  -64 <= exp fp - INVALID_FP f.
+Proof.
+  intros Lok Hr Hw Hmany Hlem Hneg Hnd1 Hnd2. pose proof (lfmt_ok_spec f Lok) as L.
+  pose proof (lfmt_emax f L) as (He1 & He2 & He3 & He4 & He5).
+  pose proof (lf_ms f L) as HMS. pose proof (lf_sp10 f L) as Hsp. pose proof (lf_lp10 f L) as Hlp.
+  pose proof (rp_bias f (rfmt_ok_props f Hr)) as Hbias.
+  assert (Hmany' : many n = true -> 0 < nmant n /\ nmant n + 1 < 2 ^ 64).
+  { intros Hm. destruct (Hmany Hm). pose proof (pow2_pos (MANTISSA_SIZE f + 3) ltac:(lia)). lia. }
+  destruct (lemire_declined_shape f b n fp Lok Hw Hmany' Hlem Hneg)
+    as (Hw0 & Hq & (lo & hi & Hlo & Hhi & Hpair & Hces) & [Hd|(Hm & fp1 & fp2 & E1 & X1 & E2 & Hne)]);
+    [contradiction|].
+  set (w := nmant n) in *. set (q := nexp n) in *.
+  destruct (Hmany Hm) as [Hwbig Hw1]. fold w in Hwbig, Hw1.
+  assert (X2 : 0 <= exp fp2).
+  { destruct (Z_lt_le_dec (exp fp2) 0); [|assumption]. exfalso. apply Hnd2. exists fp2. auto. }
+  pose proof (lz64_spec w ltac:(lia)) as (Hlz & Hw').
+  set (lz := lz64 w) in *.
+  rewrite (ces_eq f b q hi lz L ltac:(lia) Hhi Hlz) in Hces. inversion Hces as [Hfp]. clear Hces. subst fp.
+  cbn [mant exp] in *.
+  set (hilz := hilz_of hi) in *.
+  set (e' := pw q + EXPONENT_BIAS f - hilz - lz - 62) in *.
+  replace (e' + INVALID_FP f - INVALID_FP f) with e' by lia.
+  destruct (Z_le_gt_dec (-64) e') as [|Hdeep]; [assumption|exfalso].
+  assert (Hh : 0 <= hilz <= 1 /\ 2 ^ 63 <= hi * 2 ^ hilz < 2 ^ 64).
+  { unfold hilz. destruct (hilz_cases hi Hhi) as [[H1 H]|[H1 H]]; rewrite H.
+    - change (2 ^ 1) with 2. rewrite p2_63, p2_64 in *. change (2 ^ 62) with 4611686018427387904 in Hhi. lia.
+    - change (2 ^ 0) with 1. lia. }
+  destruct Hh as (Hh & Hmr).
+  set (s := 1 - e').
+  assert (HEs : femin f + qs q + lz = 128 + s - hilz).
+  { unfold s, e', qs, femin, prec. lia. }
+  destruct (est_core f q w lo hi s (femin f) L ltac:(lia) ltac:(lia) Hlo Hhi Hpair HEs ltac:(unfold s; lia))
+    as (_ & C2 & C3).
+  fold hilz in C2, C3. set (m := hi * 2 ^ hilz) in *.
+  assert (HS : 2 ^ 66 <= 2 ^ s) by (apply pow2_le; unfold s; lia).
+  change (2 ^ 66) with 73786976294838206464 in HS. rewrite p2_64 in Hmr.
+  set (S := 2 ^ s) in *.
+  assert (Hdd : 0 < dec_den q) by (rewrite dec_den_eq; apply tenD_pos).
+  pose proof (sc_den_pos (dec_den q) (femin f) Hdd) as HDw.
+  set (Dw := sc_den (dec_den q) (femin f)) in *.
+  assert (Hw2 : 2 <= w).
+  { assert (2 ^ 1 <= 2 ^ (MANTISSA_SIZE f + 3)) by (apply pow2_le; lia). change (2 ^ 1) with 2 in H. lia. }
+  (* both ends round to zero *)
+  assert (Z1 : 2 * sc_num (dec_num w q) (femin f) < Dw).
+  { apply (Z.mul_lt_mono_pos_r (2 * S)); [lia|].
+    assert ((4 * (m + 4) + 1) * Dw <= 2 * S * Dw) by (apply Z.mul_le_mono_nonneg_r; lia).
+    replace (2 * sc_num (dec_num w q) (femin f) * (2 * S)) with (4 * sc_num (dec_num w q) (femin f) * S) by ring.
+    replace (Dw * (2 * S)) with (2 * S * Dw) by ring. lia. }
+  assert (Z2 : 2 * sc_num (dec_num (w + 1) q) (femin f) < Dw).
+  { apply (Z.mul_lt_mono_pos_r (2 * S * w)); [apply Z.mul_pos_pos; lia|].
+    assert ((w + 1) * (4 * (m + 4) + 1) <= 2 * S * w).
+    { assert (73786976294838206464 * w <= S * w) by (apply Z.mul_le_mono_nonneg_r; lia).
+      assert ((w + 1) * (4 * (m + 4) + 1) <= (w + 1) * 73786976294838206477) by (apply Z.mul_le_mono_nonneg_l; lia).
+      lia. }
+    assert ((w + 1) * (4 * (m + 4) + 1) * Dw <= 2 * S * w * Dw) by (apply Z.mul_le_mono_nonneg_r; lia).
+    replace (2 * sc_num (dec_num (w + 1) q) (femin f) * (2 * S * w))
+      with (4 * sc_num (dec_num (w + 1) q) (femin f) * S * w) by ring.
+    replace (Dw * (2 * S * w)) with (2 * S * w * Dw) by ring. lia. }
+  destruct (compute_float_sound_all f b q w Lok ltac:(lia)) as (fa & Ea & Sa).
+  destruct (compute_float_sound_all f b q (w + 1) Lok ltac:(lia)) as (fb & Eb & Sb).
+  rewrite E1 in Ea. inversion Ea; subst fa. rewrite E2 in Eb. inversion Eb; subst fb.
+  destruct (Sa X1) as [Fa Ra]. destruct (Sb X2) as [Fb Rb].
+  assert (Hdn : forall ww, 0 < ww -> 0 < dec_num ww q).
+  { intros ww Hww. rewrite dec_num_eq. pose proof (tenN_pos q). apply Z.mul_pos_pos; lia. }
+  pose proof (rne_zero_cell f _ _ _ L (Hdn w ltac:(lia)) Hdd Z1 Ra) as Pa.
+  pose proof (rne_zero_cell f _ _ _ L (Hdn (w + 1) ltac:(lia)) Hdd Z2 Rb) as Pb.
+  apply Hne. rewrite (pack_zero_inv f fp1 L Fa Pa), (pack_zero_inv f fp2 L Fb Pb). reflexivity.
+Qed.
+
+(** the general (weak) lower bound, and the numbers for the two formats *)
+Lemma declined_exp_formula_range q lz hilz bias :
+  0 <= lz <= 63 -> 0 <= hilz <= 1 ->
+  pw q + bias - 126 <= pw q + bias - hilz - lz - 62 <= pw q + bias - 62.
+Proof. lia. Qed.
+
+Lemma pw_F64_range q : SMALLEST_POWER_OF_TEN F64 <= q <= LARGEST_POWER_OF_TEN F64 -> -1074 <= pw q <= 1086.
+Proof.
+  intros [H1 H2]. pose proof (pw_mono _ _ H1). pose proof (pw_mono _ _ H2).
+  change (pw (SMALLEST_POWER_OF_TEN F64)) with (-1074) in *. change (pw (LARGEST_POWER_OF_TEN F64)) with 1086 in *. lia.
+Qed.
+Lemma pw_F32_range q : SMALLEST_POWER_OF_TEN F32 <= q <= LARGEST_POWER_OF_TEN F32 -> -153 <= pw q <= 189.
+Proof.
+  intros [H1 H2]. pose proof (pw_mono _ _ H1). pose proof (pw_mono _ _ H2).
+  change (pw (SMALLEST_POWER_OF_TEN F32)) with (-153) in *. change (pw (LARGEST_POWER_OF_TEN F32)) with 189 in *. lia.
+Qed.
+
+Corollary lemire_declined_exp_range_F64 b n fp : 0 <= nmant n < 2 ^ 64 ->
+  (many n = true -> 2 ^ 55 <= nmant n /\ nmant n + 1 < 2 ^ 64) ->
+  lemire TABLES F64 b n = Ok fp -> exp fp < 0 ->
+  -125 <= exp fp - INVALID_FP F64 <= 2099 /\ (many n = true -> -70 <= exp fp - INVALID_FP F64).
+Proof.
+  intros Hw Hmany Hlem Hneg.
+  destruct (lemire_declined_estimate F64 b n fp lfmt_ok_F64 rfmt_ok_F64 Hw Hmany Hlem Hneg)
+    as (_ & (hilz & Hh & He) & _). cbn [mant exp] in He.
+  assert (Hmany' : many n = true -> 0 < nmant n /\ nmant n + 1 < 2 ^ 64).
+  { intros Hm. destruct (Hmany Hm). change (2 ^ 55) with 36028797018963968 in *. lia. }
+  destruct (lemire_declines_only_in_range F64 b n fp lfmt_ok_F64 Hw Hmany' Hlem Hneg) as [Hq Hw0].
+  pose proof (pw_F64_range _ Hq). pose proof (lz64_spec (nmant n) ltac:(lia)) as (Hlz & Hw').
+  change (EXPONENT_BIAS F64) with 1075 in He. split; [lia|].
+  intros Hm. destruct (Hmany Hm) as [Hb _].
+  assert (lz64 (nmant n) <= 8).
+  { destruct (Z_le_gt_dec (lz64 (nmant n)) 8); [assumption|exfalso].
+    assert (2 ^ 9 <= 2 ^ lz64 (nmant n)) by (apply pow2_le; lia).
+    change (2 ^ 9) with 512 in *. change (2 ^ 55) with 36028797018963968 in *. rewrite p2_64 in *. nia. }
+  lia.
+Qed.
+
+Corollary lemire_declined_exp_range_F32 b n fp : 0 <= nmant n < 2 ^ 64 ->
+  (many n = true -> 2 ^ 26 <= nmant n /\ nmant n + 1 < 2 ^ 64) ->
+  lemire TABLES F32 b n = Ok fp -> exp fp < 0 ->
+  -129 <= exp fp - INVALID_FP F32 <= 277.
+Proof.
+  intros Hw Hmany Hlem Hneg.
+  destruct (lemire_declined_estimate F32 b n fp lfmt_ok_F32 rfmt_ok_F32 Hw Hmany Hlem Hneg)
+    as (_ & (hilz & Hh & He) & _). cbn [mant exp] in He.
+  assert (Hmany' : many n = true -> 0 < nmant n /\ nmant n + 1 < 2 ^ 64).
+  { intros Hm. destruct (Hmany Hm). change (2 ^ 26) with 67108864 in *. lia. }
+  destruct (lemire_declines_only_in_range F32 b n fp lfmt_ok_F32 Hw Hmany' Hlem Hneg) as [Hq Hw0].
+  pose proof (pw_F32_range _ Hq). pose proof (lz64_spec (nmant n) ltac:(lia)) as (Hlz & Hw').
+  change (EXPONENT_BIAS F32) with 150 in He. lia.
+Qed.
+
+(** ** Examples *)
+(** a realistic input (the 19 leading digits of half the smallest subnormal, more digits
+    following) on which the estimate has exponent -64: [compute_float] answers 0 at w and the
+    smallest subnormal at w + 1, so the wrapper declines *)
+Example ex_declined_m64 :
+  let n := mkNumber (-342) 2470328229206232720 true in
+  compute_float TABLES F64 checked_build (nexp n) (nmant n) = Ok (mkExt 0 0) /\
+  compute_float TABLES F64 checked_build (nexp n) (nmant n + 1) = Ok (mkExt 1 0) /\
+  lemire TABLES F64 checked_build n = Ok (mkExt 18446744073709551608 (-32832)) /\
+  -32832 - INVALID_FP F64 = -64 /\
+  rd_bits F64 (mkExt 18446744073709551608 (-64)) = 0.
+Proof. cbv zeta. repeat split; vm_compute; reflexivity. Qed.
+
+(** the hypotheses of the main theorem on that instance *)
+Example ex_declined_hyps :
+  let n := mkNumber (-342) 2470328229206232720 true in
+  lfmt_ok F64 = true /\ rfmt_ok F64 = true /\ 0 <= nmant n < 2 ^ 64 /\
+  (many n = true -> 2 ^ (MANTISSA_SIZE F64 + 3) <= nmant n /\ nmant n + 1 < 2 ^ 64) /\
+  exists fp, lemire TABLES F64 checked_build n = Ok fp /\ exp fp < 0.
+Proof.
+  cbv zeta. split; [exact lfmt_ok_F64|]. split; [exact rfmt_ok_F64|].
+  split; [cbn [nmant]; rewrite p2_64; lia|]. split.
+  - intros _. cbn [nmant]. split; [vm_compute; discriminate|rewrite p2_64; lia].
+  - eexists. split; [vm_compute; reflexivity|]. cbn [exp]. lia.
+Qed.
+
+(** an ordinary declined halfway case: 9007199254740993.000... with more digits following; the
+    two ends round to [rd_bits] and [rd_bits + 1] *)
+Example ex_declined_tie :
+  let n := mkNumber (-3) 9007199254740993000 true in
+  lemire TABLES F64 checked_build n = Ok (mkExt 9223372036854776832 (-31703)) /\
+  rd_bits F64 (mkExt 9223372036854776832 (-31703 - INVALID_FP F64)) = 4845873199050653696 /\
+  compute_float TABLES F64 checked_build (nexp n) (nmant n) = Ok (mkExt 0 1076) /\
+  compute_float TABLES F64 checked_build (nexp n) (nmant n + 1) = Ok (mkExt 1 1076) /\
+  pack F64 (mkExt 0 1076) = 4845873199050653696 /\ pack F64 (mkExt 1 1076) = 4845873199050653696 + 1.
+Proof. cbv zeta. repeat split; vm_compute; reflexivity. Qed.
+
+Print Assumptions lemire_declined_estimate.
+Print Assumptions lemire_declined_exp_ge.
+Print Assumptions lemire_declined_shape.
+Print Assumptions lemire_declines_only_in_range.
+Print Assumptions lemire_declined_exp_range_F64.
